@@ -10,6 +10,20 @@ CHECKS = {
          "Every signer subset of every (n,t) up to the bound, 5 identifier kinds, dealer/split/DKG keys, on all six ciphersuites, each session checked by an independent single-signer verifier; plus every key/coefficient/nonce value on GF(7)/GF(11) against a plain-u64 reference of the whole signing flow.",
          "Real-curve scalars are an alphabet, not all values (value-genericity argument, DESIGN 2); curve crates, sha2/sha3, ed25519-dalek and libsecp256k1 are trusted.", "DESIGN 4 C01"),
 }
+CHECKS.update({
+ "C03": ("exploration", "bounded-exhaustive enumeration of every below-threshold signer subset on the real code + exhaustive tiny-field secrecy count",
+         "Every subset of size 1..t-1 of every (n,t) up to the bound, with honest and lied thresholds in key packages and public key package, through sign / aggregate (3 modes) / reconstruct / hand-assembled signatures; exact Shamir secrecy (every secret equally often for every (t-1)-subset of shares) over ALL polynomials on GF(5), GF(7), GF(11).",
+         "Unforgeability against arbitrary algorithms is a cryptographic assumption and is not decided; what is decided is the refusals, the honest-algorithm attack surface and exact secrecy on the tiny field.", "DESIGN 4 C03"),
+ "C04": ("fault_enumeration", "exhaustive fault enumeration (every cheater subset x wrong-share kind x detection mode) with an exact reference predicate; every error vector on the tiny field",
+         "Every non-empty cheater subset of every signer set, seven wrong-share kinds incl. cross-session and cancelling ones, three detection modes plus stand-alone share verification, Taproot in all four (key parity, R parity) branches; oracle is exact (e_i computed by the harness, numeric identifier order computed independently). On GF(7)/GF(11)/GF(13) EVERY error vector is run.",
+         "Wrong-share values on the real curves are structured kinds, not all values; all values only on the tiny field.", "DESIGN 4 C04"),
+ "C06": ("exploration", "bounded-exhaustive shape enumeration + exhaustive single-coordinate tamper enumeration; exhaustive tiny-field polynomials",
+         "Every (n,t) up to the bound x 5 identifier kinds x generate/split: every share checked by independent commitment evaluation and Lagrange interpolation, EVERY t-subset reconstructs, every (t-1)-subset does not, EVERY single-coordinate tampering (value, identifier, each commitment entry, truncation, extension) of every share is rejected; u16 boundary and duplicate/mis-sized identifier lists refused; all polynomials on GF(5)/GF(7)/GF(11).",
+         "Coefficient values on the real curves are seeded streams; all values only on the tiny field.", "DESIGN 4 C06"),
+ "C11": ("exploration", "bounded-exhaustive enumeration of (repaired identifier, helper set) on the real code; every blinding vector on the tiny field",
+         "Every repaired identifier (each existing participant and three new ones) x every helper set t<=|H| of every (n,t) up to the bound through the three repair parts of each crate's wrappers; delta sums and the repaired share compared with independent Lagrange interpolation; the refusals; every blinding vector on GF(7)/GF(11).",
+         "Blinding values on the real curves are seeded streams.", "DESIGN 4 C11"),
+})
 NOT_APPLICABLE = {}
 
 def main():
